@@ -29,7 +29,7 @@ func init() {
 		Directed:   c20Directed,
 		Run:        c20Run,
 		MustHit:    []string{"kind=Response", "kind=LogoutResponse", "op=dup-id", "op=shadow-id-after", "op=second-issuer-last", "op=second-issuer-first", "op=nested-issuer", "op=comment-in-issuer", "compressed", "skip_config", "accepted_with_ops", "route_to_B"},
-		RandomRuns: map[string]int{"quick": 1500, "thorough": 80000},
+		RandomRuns: map[string]int{"quick": 6000, "thorough": 80000},
 	})
 }
 
